@@ -34,13 +34,30 @@ import PyamgV.Driver.ExtE11
 import PyamgV.Driver.ExtE12
 import PyamgV.Driver.ExtE13
 import PyamgV.Driver.ExtE14
+import PyamgV.Driver.ExtE15
+import PyamgV.Driver.ExtE16
+import PyamgV.Driver.ExtE17
+import PyamgV.Driver.ExtE18
+import PyamgV.Driver.ExtE19
+import PyamgV.Driver.ExtE20
+import PyamgV.Driver.ExtE21
+import PyamgV.Driver.ExtE22
+import PyamgV.Driver.ExtE23
+import PyamgV.Driver.ExtE24
+import PyamgV.Driver.ExtE25
+import PyamgV.Driver.ExtE26
+import PyamgV.Driver.ExtE27
+import PyamgV.Driver.ExtE28
+import PyamgV.Driver.ExtE29
+import PyamgV.Driver.ExtE30
 /-! The line-protocol driver: one request per line, one reply per line. Unknown ops reply `bad-op`. -/
 namespace PyamgV.Drv
 
 def handlers : List (List String → Option String) :=
   [Relax.handle, Graph.handle, Num.handle, C01.handle, C02.handle, C03.handle, C04.handle, C05.handle, C06.handle, C07.handle, C08.handle, C09.handle, C10.handle, C11.handle, C12.handle, C13.handle, C14.handle, C15.handle, C16.handle, C17.handle, C18.handle, C19.handle, C20.handle,
    ExtGraph.handle, ExtPairwise.handle, ExtMisc.handle,
-   ExtE5.handle, ExtE6.handle, ExtE7.handle, ExtE8.handle, ExtE9.handle, ExtE10.handle, ExtE11.handle, ExtE12.handle, ExtE13.handle, ExtE14.handle]
+   ExtE5.handle, ExtE6.handle, ExtE7.handle, ExtE8.handle, ExtE9.handle, ExtE10.handle, ExtE11.handle, ExtE12.handle, ExtE13.handle, ExtE14.handle,
+   ExtE15.handle, ExtE16.handle, ExtE17.handle, ExtE18.handle, ExtE19.handle, ExtE20.handle, ExtE21.handle, ExtE22.handle, ExtE23.handle, ExtE24.handle, ExtE25.handle, ExtE26.handle, ExtE27.handle, ExtE28.handle, ExtE29.handle, ExtE30.handle]
 
 def dispatch (toks : List String) : String :=
   match handlers.findSome? (fun h => h toks) with
